@@ -193,12 +193,39 @@ def _statement_values_tested(term):
     return out
 
 
+def asked_objects(term):
+    """[(condition, tag)]: the source values whose truth value is taken when the truth of `term` is
+    asked.  `a and b` IS the object a when a is false, else the object b (6.11): testing the result of
+    a boolean operation asks that very object again."""
+    T = z3.BoolVal(True)
+    if isinstance(term, tuple) and term:
+        k = term[0]
+        if k == "val":
+            return [(T, term[1])]
+        if k == "boolop":
+            ta = truth_of(term[2])
+            first_is_result = z3.Not(ta) if term[1] == "and" else ta
+            return [(z3.And(first_is_result, c_), t_) for c_, t_ in asked_objects(term[2])] + \
+                   [(z3.And(z3.Not(first_is_result), c_), t_) for c_, t_ in asked_objects(term[3])]
+        if k == "ifexp":
+            tt = truth_of(term[1])
+            return [(z3.And(tt, c_), t_) for c_, t_ in asked_objects(term[2])] + [(z3.And(z3.Not(tt), c_), t_) for c_, t_ in asked_objects(term[3])]
+    return []
+
+
 def guarded(tr, cond=None):
     cond = z3.BoolVal(True) if cond is None else cond
     out = []
     for e in tr:
+        if e[0] == "truthask":
+            for c_, tag in asked_objects(e[1]):
+                out.append((z3.And(cond, c_), ("truth-ask", tag)))
+            continue
         if e[0] == "choice":
             t = truth_of(e[1])
+            for c_, tag in asked_objects(e[1]):
+                # bool() of an object a source expression produced: observable (its __bool__/__len__ may run)
+                out.append((z3.And(cond, c_), ("truth-ask", tag)))
             for sub in _statement_values_tested(e[1]):
                 # the truth value of a STATEMENT's value is taken: bool() of an object the user's
                 # expression produced (Python never does that for a statement)
@@ -213,11 +240,30 @@ def guarded(tr, cond=None):
     return out
 
 
+def _order_exclusive(c, evs):
+    """two adjacent events that can never both happen (their conditions exclude each other: the two
+    branches of one test) have no observable order: bring them into a canonical one"""
+    evs = list(evs)
+    key = lambda e: repr(e[1])
+    changed = True
+    rounds = 0
+    while changed and rounds < len(evs) + 2:
+        changed = False
+        rounds += 1
+        for i in range(len(evs) - 1):
+            a, b = evs[i], evs[i + 1]
+            if key(a) > key(b) and c.valid(z3.Not(z3.And(a[0], b[0])))[0]:
+                evs[i], evs[i + 1] = b, a
+                changed = True
+    return evs
+
+
 def guarded_eq(c, got, want, why):
     g = [(z3.simplify(cd), e) for cd, e in guarded(got)]
     w = [(z3.simplify(cd), e) for cd, e in guarded(want)]
     g = [x for x in g if not z3.is_false(x[0])]
     w = [x for x in w if not z3.is_false(x[0])]
+    g, w = _order_exclusive(c, g), _order_exclusive(c, w)
     if len(g) != len(w):
         why.append(f"{len(g)} guarded events vs {len(w)}")
         return False
